@@ -114,6 +114,12 @@ CHECKS = [
               "(Exception and BaseException subclasses); after each run and after generated fault-free histories, 14 probes detect any leaked flatten-mode flag, "
               "leaf label, open context, mutated annotation, changed switch or left-over import hook.",
          note="faults only at call-outs the harness owns; the make_transparent finding is listed in known_findings.json and excluded from generated histories (counted)"),
+    dict(property_id="C06", level="exploration", design_ref="DESIGN.md §5 C06",
+         technique="harness-owned deterministic thread schedules (sys.settrace line tracing of jaxtyping's own frames, one runnable thread at a time) drawn by Hypothesis; differential: per-thread transcript interleaved == transcript of the same workload alone",
+         text="2-3 threads run generated workloads (decorated calls, context blocks, passing/failing array checks, structured PyTree checks with '?' axes) that "
+              "share annotation objects and names; context switches are forced every 1-8 source lines of jaxtyping (plus drawn segments), i.e. inside every "
+              "window between snapshot/restore, flag set/clear and push/pop. Each thread must obtain exactly the verdicts, listed bindings and transcripts it obtains alone.",
+         note="line-granular pre-emption of jaxtyping's Python code under the GIL; not inside C extensions; the solo run is the oracle"),
 ]
 _pending = "check not built yet in this round (will be claimed once its machinery is committed)"
 NOT_APPLICABLE = [dict(property_id=f"C{i:02d}", reason=_pending) for i in range(1, 21)
